@@ -33,11 +33,26 @@ type readTrace struct {
 	FinalErr error
 }
 
+// c03PerMsgCtx (set per case; cases run one at a time): every message is read under a
+// context of its own, which the application releases as soon as the message is complete.
+// The context of a finished read must not matter to the connection any more.
+var c03PerMsgCtx bool
+
 // readAllMsgs reads messages with Reader + Read loops until the first error.
 func readAllMsgs(conn *websocket.Conn, bufSize func() int, maxMsgs int) readTrace {
 	var tr readTrace
 	ctx := context.Background()
+	release := func() {}
+	perMsg := c03PerMsgCtx
+	defer func() { release() }()
 	for len(tr.Msgs) < maxMsgs {
+		if perMsg {
+			release()
+			if len(tr.Msgs) > 0 {
+				time.Sleep(time.Millisecond) // (virtual) whoever watches the released context has had its turn
+			}
+			ctx, release = context.WithCancel(context.Background())
+		}
 		if bufSize() < 0 {
 			// Conn.Read: the whole message at once (what it hands back together with an error counts as delivered)
 			typ, b, err := conn.Read(ctx)
@@ -414,6 +429,8 @@ type c03Pause struct {
 	D   time.Duration
 	// Early (server role): the first Early bytes of the stream arrive together with the handshake request.
 	Early int
+	// PerMsgCtx: see c03PerMsgCtx
+	PerMsgCtx bool
 }
 
 func runC03(t fataler, mode c03Mode, frames []ref.Frame, stream []byte, sizes []int, maxRead int, bufSize int, limit int64, intended [][]byte, pause ...c03Pause) string {
@@ -460,6 +477,8 @@ func runC03(t fataler, mode c03Mode, frames []ref.Frame, stream []byte, sizes []
 		lc.End.CloseWrite(nil)
 	}
 	var tr readTrace
+	c03PerMsgCtx = len(pause) > 0 && pause[0].PerMsgCtx
+	defer func() { c03PerMsgCtx = false }()
 	done := e.Call(func() {
 		tr = readAllMsgs(lc.C, func() int { return bufSize }, len(frames)+2)
 	})
@@ -518,6 +537,7 @@ func TestC03(t *testing.T) {
 			// the beginning of the stream arrives in the same segment as the handshake request
 			pause.Early = rapid.SampledFrom([]int{1, 2, 6, 7, len(stream) / 2, len(stream)}).Draw(rt, "pipelinedBytes")
 		}
+		pause.PerMsgCtx = rapid.IntRange(0, 2).Draw(rt, "contextPerMessage") == 0
 		limit := rapid.SampledFrom([]int64{-1, 1 << 20}).Draw(rt, "limit")
 		intended := make([][]byte, len(msgs))
 		for i := range msgs {
@@ -555,6 +575,9 @@ func TestC03(t *testing.T) {
 		}
 		if pause.Early > 0 {
 			classes = append(classes, "stream-begins-in-the-segment-of-the-handshake-request")
+		}
+		if pause.PerMsgCtx {
+			classes = append(classes, "each-message-read-under-its-own-context-released-afterwards")
 		}
 		for _, k := range kinds {
 			classes = append(classes, "inject:"+k)
